@@ -256,4 +256,280 @@ theorem occupancy_is_union (pol : Policy) (rs : List Request) (s s' : List Oms) 
       (o.bm.cellAt x).map (fun c => if (grants rs os).any (fun g => g.covers k x) then Cell.occupied else c) :=
   ⟨(run_spec pol rs s s' os hs hnd h).2.1, (run_spec pol rs s s' os hs hnd h).2.2.2.2⟩
 
+
+/-- a feasible position for a slot of half-width `m` centred on `n'` on a route, measured as the test bitmap of
+    `compute_n_m` measures it: free on every OMS of the route and inside the guard band counted from the first/last
+    slot index of the maps -/
+def Feasible (s : List Oms) (path : List Nat) (n' m : Int) : Prop :=
+  ∀ k ∈ path, ∀ o, s[k]? = some o → o.bm.aggIdxMin ≤ n' - m ∧ n' + m - 1 ≤ o.bm.aggIdxMax ∧
+    ∀ x : Int, n' - m ≤ x → x ≤ n' + m - 1 → o.bm.cellAt x = some Cell.free
+
+/-- **first_fit_lowest.** With the first-fit policy a request with one slot and a free N (M fixed or free) is placed
+    at the lowest feasible position: no centre below the granted one is feasible on the route. -/
+theorem first_fit_lowest (s s' : List Oms) (r : Request) (e : Entry) (n m : Int) (hs : StateWF s)
+    (hnd : r.pathOms.Nodup) (he : r.entries = [e]) (hn : e.n = none)
+    (h : step Policy.firstFit s r = .ok (s', Outcome.accepted [(n, m)])) :
+    ∀ n' : Int, n' < n → ¬ Feasible s r.pathOms n' m := by
+  obtain ⟨nbWl, requiredM, pcm, t, sel, _, a1, a2, a3, _, _, _⟩ := step_accepted_spec _ s s' r _ hs hnd h
+  obtain ⟨hne, hwf, c1, c2, c3⟩ := aggregate_spec s hs _ t a1
+  have hsel : sel = [(n, m)] := (List.Perm.singleton_eq a3).symm
+  subst hsel
+  rw [he] at a2
+  have hord : (orderSlots [e]).map (·.2) = [e] := rfl
+  rw [hord] at a2
+  -- unfold the loop on the single entry
+  simp only [nmLoop, bind, Except.bind] at a2
+  cases hsl : selectOne t e requiredM pcm Policy.firstFit with
+  | error err => rw [hsl] at a2; cases a2
+  | ok v =>
+    rw [hsl] at a2
+    cases v with
+    | none => simp [pure, Except.pure] at a2
+    | some nm =>
+      simp only at a2
+      cases has : assignSpectrum t nm.1 nm.2 with
+      | error err => rw [has] at a2; cases a2
+      | ok t' =>
+        rw [has] at a2
+        simp only [pure, Except.pure, Except.ok.injEq, Prod.mk.injEq, List.cons.injEq, and_true] at a2
+        have hnm : nm = (n, m) := Prod.ext a2.1.1 a2.1.2
+        subst hnm
+        obtain ⟨hm, _⟩ := assignSpectrum_ok t t' _ _ hwf has
+        -- the centre comes from spectrum_selection with first fit
+        have hsp : spectrumSelection t m Policy.firstFit = .ok (some n) := by
+          unfold selectOne at hsl
+          rw [hn] at hsl
+          cases hem : e.m with
+          | none =>
+            rw [hem] at hsl
+            simp only at hsl
+            split at hsl
+            · cases hsl
+            · simp only [bind, Except.bind] at hsl
+              cases hd : spectrumSelection t requiredM Policy.firstFit with
+              | error err => rw [hd] at hsl; cases hsl
+              | ok o =>
+                rw [hd] at hsl
+                cases o with
+                | none => cases hsl
+                | some n0 =>
+                  have : n0 = n ∧ requiredM = m := by simpa [pure, Except.pure] using hsl
+                  obtain ⟨rfl, rfl⟩ := this
+                  exact hd
+          | some m0 =>
+            rw [hem] at hsl
+            simp only [bind, Except.bind] at hsl
+            cases hd : spectrumSelection t m0 Policy.firstFit with
+            | error err => rw [hd] at hsl; cases hsl
+            | ok o =>
+              rw [hd] at hsl
+              cases o with
+              | none => cases hsl
+              | some n0 =>
+                have : n0 = n ∧ m0 = m := by simpa [pure, Except.pure] using hsl
+                obtain ⟨rfl, rfl⟩ := this
+                exact hd
+        intro n' hlt hfeas
+        apply spectrumSelection_first t hwf m hm n hsp n' hlt
+        obtain ⟨k, hk⟩ := List.exists_mem_of_ne_nil _ hne
+        obtain ⟨o, ho⟩ := c1 k hk
+        obtain ⟨_, _, e3, e4⟩ := c2 k hk o ho
+        obtain ⟨f1, f2, _⟩ := hfeas k hk o ho
+        refine ⟨by omega, by omega, ?_⟩
+        intro x hx1 hx2
+        exact (c3 x).2 (fun k' hk' o' ho' => (hfeas k' hk' o' ho').2.2 x hx1 hx2)
+
+theorem forall₂_mem_right {α β : Type} {R : α → β → Prop} {l1 : List α} {l2 : List β} (h : List.Forall₂ R l1 l2)
+    (b : β) (hb : b ∈ l2) : ∃ a ∈ l1, R a b := by
+  induction h with
+  | nil => cases hb
+  | cons hr _ ih =>
+    rcases List.mem_cons.1 hb with rfl | hb
+    · exact ⟨_, List.mem_cons_self, hr⟩
+    · obtain ⟨a, ha, hab⟩ := ih hb
+      exact ⟨a, List.mem_cons_of_mem _ ha, hab⟩
+
+/-- **user_fixed_honoured (partial).** Every returned (N, M) pair stems from an entry of the request and carries that
+    entry's N (resp. M) unchanged when the user fixed it; a request whose fixed values cannot be used is blocked (then
+    `step_blocked_unchanged` applies) or the entry is left unused.
+    Full statement (not yet proved: the positional link through `restore_order`): there is `g : ℕ → Option (ℤ × ℤ)` with
+    `out = (List.range r.entries.length).filterMap g` and `g k = some nm → Honoured r.entries[k] nm`, i.e. the returned
+    pairs are, in request order, the served entries. The positional part is covered by correspondence + monitor. -/
+theorem user_fixed_honoured_partial (pol : Policy) (s s' : List Oms) (r : Request) (out : List (Int × Int))
+    (hs : StateWF s) (hnd : r.pathOms.Nodup) (h : step pol s r = .ok (s', Outcome.accepted out)) :
+    out.length ≤ r.entries.length ∧ ∀ nm ∈ out, ∃ e ∈ r.entries, Honoured e nm := by
+  obtain ⟨nbWl, requiredM, pcm, t, sel, _, a1, a2, a3, _, _, _⟩ := step_accepted_spec pol s s' r out hs hnd h
+  obtain ⟨_, hwf, _, _, _⟩ := aggregate_spec s hs _ t a1
+  obtain ⟨_, _, _, b4⟩ := nmLoop_spec pcm pol _ t requiredM sel _ hwf a2
+  have hlen := nmLoop_length pcm pol _ t requiredM sel _ hwf a2
+  rw [List.length_map, orderSlots_length] at hlen
+  refine ⟨by rw [a3.length_eq]; exact hlen, ?_⟩
+  intro nm hnm
+  obtain ⟨e, he, hon⟩ := forall₂_mem_right b4 nm (a3.mem_iff.1 hnm)
+  refine ⟨e, ?_, hon⟩
+  have he' : e ∈ (orderSlots r.entries).map (·.2) := List.mem_of_mem_take he
+  obtain ⟨q, hq, rfl⟩ := List.mem_map.1 he'
+  have hq' : q ∈ enumerate r.entries := (sorted_perm _ _).mem_iff.1 hq
+  exact List.mem_of_getElem? (mem_enumerate _ _ hq')
+
+theorem reservedChannels_all (entries : List Entry) (pcm : Int) (hpcm : pcm ≠ 0)
+    (hall : ∀ e ∈ entries, ∃ m, e.m = some m ∧ m ≠ 0) :
+    reservedChannels entries pcm = .ok (some (sumInt (entries.map (fun e => floorDiv (e.m.getD 0) pcm)))) := by
+  unfold reservedChannels
+  simp only [hpcm, if_false]
+  split
+  · rfl
+  · next hn =>
+    exfalso; apply hn
+    rw [List.all_eq_true]
+    intro e he
+    obtain ⟨m, hm, hm0⟩ := hall e he
+    rw [hm]; simpa using hm0
+
+/-- **reserved_check.** When every M of the request is fixed (and non-zero) the request is blocked with
+    `NOT_ENOUGH_RESERVED_SPECTRUM` exactly when the channels that fit into the reserved widths, `Σ M // m₁` with `m₁` the
+    slots of one channel, are fewer than the channels needed for the bandwidth — independently of the spectrum state. -/
+theorem reserved_check (pol : Policy) (s : List Oms) (r : Request) (nbWl requiredM x pcm : Int)
+    (hpb : r.preBlocked = false)
+    (h1 : slotsVsBandwidth r.pathBandwidth r.spacing r.bitRate = .ok (nbWl, requiredM))
+    (h2 : slotsVsBandwidth r.bitRate r.spacing r.bitRate = .ok (x, pcm)) (hpcm : pcm ≠ 0)
+    (hall : ∀ e ∈ r.entries, ∃ m, e.m = some m ∧ m ≠ 0) :
+    (∃ s', step pol s r = .ok (s', Outcome.blocked "NOT_ENOUGH_RESERVED_SPECTRUM")) ↔
+      sumInt (r.entries.map (fun e => floorDiv (e.m.getD 0) pcm)) < nbWl := by
+  have hrs : reservedShort r.entries pcm nbWl =
+      .ok (decide (nbWl > sumInt (r.entries.map (fun e => floorDiv (e.m.getD 0) pcm)))) := by
+    simp only [reservedShort, bind, Except.bind, reservedChannels_all r.entries pcm hpcm hall]
+    rfl
+  unfold step
+  simp only [hpb, Bool.false_eq_true, if_false, bind, Except.bind, h1, h2, hrs]
+  by_cases hlt : nbWl > sumInt (r.entries.map (fun e => floorDiv (e.m.getD 0) pcm))
+  · simp only [decide_eq_true hlt, if_true]
+    constructor
+    · intro _; exact hlt
+    · intro _; exact ⟨s, rfl⟩
+  · simp only [decide_eq_false hlt, Bool.false_eq_true, if_false]
+    constructor
+    · rintro ⟨s', hh⟩
+      exfalso
+      cases hc : computeNM requiredM r.entries r.pathOms s pcm pol with
+      | error e => rw [hc] at hh; cases hh
+      | ok sr =>
+        rw [hc] at hh
+        simp only at hh
+        split at hh
+        · simp only [pure, Except.pure, Except.ok.injEq, Prod.mk.injEq, Outcome.blocked.injEq] at hh
+          exact absurd hh.2 (by decide)
+        · cases ha : applyPath sr.1 r.id nbWl r.pathOms s with
+          | error e => rw [ha] at hh; cases hh
+          | ok s1 =>
+            rw [ha] at hh
+            simp only [pure, Except.pure, Except.ok.injEq, Prod.mk.injEq] at hh
+            cases hh.2
+    · intro hh; exact absurd hh hlt
+
+
+/-! ### the hypotheses are what `build_oms_list` produces (and are satisfiable) -/
+
+theorem tdiv_grid (a : Int) : a.tdiv 6250000000 = if 0 ≤ a then a / 6250000000 else -((-a) / 6250000000) := by
+  split
+  · next h => exact Int.tdiv_eq_ediv_of_nonneg h
+  · next h =>
+    have : a = -(-a) := by omega
+    rw [this, Int.neg_tdiv, Int.tdiv_eq_ediv_of_nonneg (by omega)]
+    simp
+
+/-- A map built by `OMS.update_spectrum` / `Bitmap.__init__` on the default grid is well formed; when the guard band is
+    a non-negative multiple of the grid step (the shipped flow uses 25 GHz = 4 steps) the guard-band limits recomputed
+    by `aggregate_oms_bitmap` are never looser than the recorded `freq_index_min/max`. -/
+theorem create_wf (fMin fMax k : Int) (hk : 0 ≤ k) (cells : Option (List Cell)) (b : Bitmap)
+    (h : Bitmap.create fMin fMax defaultGrid (k * defaultGrid) cells = .ok b) :
+    b.WF ∧ b.idxMin ≤ b.aggIdxMin ∧ b.aggIdxMax ≤ b.idxMax ∧ b.nMin = frequencyToN fMin ∧ b.nMax = frequencyToN fMax ∧
+      b.guardband = k * defaultGrid := by
+  unfold Bitmap.create at h
+  have hg : ¬ defaultGrid = 0 := by decide
+  rw [if_neg hg] at h
+  have key : ∀ c : List Cell, c.length = (intRange (frequencyToN fMin) (frequencyToN fMax + 1)).length →
+      b = { nMin := frequencyToN fMin, nMax := frequencyToN fMax,
+            idxMin := frequencyToN (fMin + k * defaultGrid), idxMax := frequencyToN (fMax - k * defaultGrid),
+            freqIndex := intRange (frequencyToN fMin) (frequencyToN fMax + 1), cells := c,
+            guardband := k * defaultGrid } →
+      b.WF ∧ b.idxMin ≤ b.aggIdxMin ∧ b.aggIdxMax ≤ b.idxMax ∧ b.nMin = frequencyToN fMin ∧ b.nMax = frequencyToN fMax ∧
+        b.guardband = k * defaultGrid := by
+    intro c hc hb
+    subst hb
+    refine ⟨⟨rfl, hc⟩, ?_, ?_, rfl, rfl, rfl⟩
+    · simp only [Bitmap.aggIdxMin, frequencyToN, nToFrequency, truncDiv, anchorHz, defaultGrid, tdiv_grid]
+      split <;> split <;> split <;> omega
+    · simp only [Bitmap.aggIdxMax, frequencyToN, nToFrequency, truncDiv, anchorHz, defaultGrid, tdiv_grid]
+      split <;> split <;> split <;> omega
+  cases cells with
+  | none =>
+    simp only [pure, Except.pure, Except.ok.injEq] at h
+    refine key _ ?_ h.symm
+    rw [length_rep, length_intRange]; congr 1; omega
+  | some c =>
+    simp only at h
+    split at h
+    · next hc =>
+      simp only [pure, Except.pure, Except.ok.injEq] at h
+      exact key c hc h.symm
+    · cases h
+
+/-- every OMS list whose maps were all created over one frequency range with one guard band (a multiple of the grid
+    step) – which is what `build_oms_list` does – satisfies the hypothesis `StateWF` of the theorems above -/
+theorem stateWF_of_create (fMin fMax k : Int) (hk : 0 ≤ k) (s : List Oms)
+    (h : ∀ o ∈ s, ∃ cells, Bitmap.create fMin fMax defaultGrid (k * defaultGrid) cells = .ok o.bm) : StateWF s := by
+  refine ⟨fun o ho => ?_, fun o ho o' ho' => ?_, fun o ho => ?_⟩
+  · obtain ⟨c, hc⟩ := h o ho
+    exact (create_wf fMin fMax k hk c _ hc).1
+  · obtain ⟨c, hc⟩ := h o ho
+    obtain ⟨c', hc'⟩ := h o' ho'
+    obtain ⟨_, _, _, a1, a2, a3⟩ := create_wf fMin fMax k hk c _ hc
+    obtain ⟨_, _, _, b1, b2, b3⟩ := create_wf fMin fMax k hk c' _ hc'
+    exact ⟨by rw [a1, b1], by rw [a2, b2], by rw [a3, b3]⟩
+  · obtain ⟨c, hc⟩ := h o ho
+    obtain ⟨_, g1, g2, _⟩ := create_wf fMin fMax k hk c _ hc
+    exact ⟨g1, g2⟩
+
+/-- after any history on such an OMS list the state is again well formed (so the theorems apply to every prefix) -/
+theorem run_preserves_wf (pol : Policy) (rs : List Request) (s s' : List Oms) (os : List Outcome) (hs : StateWF s)
+    (hnd : ∀ r ∈ rs, r.pathOms.Nodup) (h : run pol s rs = .ok (s', os)) : StateWF s' :=
+  (run_spec pol rs s s' os hs hnd h).1
+
+section NonVacuity
+/-- a 41-slot map (n = −20 … 20, guard band 25 GHz) as `Bitmap.__init__` builds it -/
+def exBitmap : Bitmap :=
+  { nMin := -20, nMax := 20, idxMin := -16, idxMax := 16, freqIndex := intRange (-20) 21,
+    cells := List.replicate 41 Cell.free, guardband := 25000000000 }
+def exState : List Oms := [⟨exBitmap, 0, []⟩, ⟨exBitmap, 0, []⟩, ⟨exBitmap, 0, []⟩]
+def exReq (id : String) (entries : List Entry) (path : List Nat) : Request :=
+  { id := id, preBlocked := false, entries := entries, pathBandwidth := 100000000000, bitRate := 100000000000,
+    spacing := 50000000000, pathOms := path }
+
+example : (Bitmap.create (anchorHz - 20 * defaultGrid) (anchorHz + 20 * defaultGrid) defaultGrid (4 * defaultGrid) none).toOption
+    = some exBitmap := by decide
+
+/-- the hypothesis `StateWF` holds for a concrete non-trivial state -/
+example : StateWF exState := by
+  apply stateWF_of_create (anchorHz - 20 * defaultGrid) (anchorHz + 20 * defaultGrid) 4 (by decide)
+  intro o ho
+  refine ⟨none, ?_⟩
+  simp only [exState, List.mem_cons, List.not_mem_nil, or_false] at ho
+  rcases ho with rfl | rfl | rfl <;> decide
+
+/-- an accepted request (free N and M, two-OMS route): first fit puts it at N = −12 -/
+example : (step .firstFit exState (exReq "a" [⟨none, none⟩] [0, 1])).toOption.map (·.2) =
+    some (Outcome.accepted [(-12, 4)]) := by decide
+
+/-- a history with an accepted, a blocked (fixed slot already taken on the shared OMS 1) and a multi-slot request:
+    the grant list is not empty and two grants share OMS 1 -/
+example : (run .firstFit exState [exReq "a" [⟨none, none⟩] [0, 1], exReq "b" [⟨some (-12), some 4⟩] [1, 2],
+                                 exReq "c" [⟨none, some 4⟩, ⟨some 8, some 4⟩] [1, 2]]).toOption.map (·.2) =
+    some [Outcome.accepted [(-12, 4)], Outcome.blocked "NO_SPECTRUM", Outcome.accepted [(-4, 4), (8, 4)]] := by decide
+
+/-- the reserved-spectrum check fires: M = 2 carries no 50 GHz channel -/
+example : (step .firstFit exState (exReq "d" [⟨some 0, some 2⟩] [0])).toOption.map (·.2) =
+    some (Outcome.blocked "NOT_ENOUGH_RESERVED_SPECTRUM") := by decide
+end NonVacuity
+
 end Gnpy.Slots
